@@ -174,3 +174,15 @@ def run(ctx, col: Collector):
             col.ok('C10-views', 'render-closure:no-stale-index', f'none of the {len(closure)} render-reachable functions reads {sorted(derived)}', node=db.node,
                    file='pydbml/database.py')
     guarded(col, 'C10-views', 'stale-indexes', stale_indexes)
+
+    def links():
+        # "indexes, references, enum-typed columns, table groups ... all show the new names": the element that is rendered holds the object that was edited,
+        # not a copy or a spelled name.  These are the link obligations of C05 (enum match by schema and name, linked object taken from the owner's collection).
+        sub = ctx.sub('c05', col.prop)
+        n = 0
+        for o in sub.obs:
+            if o.rule in ('C05-enum', 'C05-identity') and not o.construct.startswith('floor:'):
+                n += 1
+                col.obs.append(type(o)(col.prop, 'C10-links', o.construct, o.status, o.msg, o.file, o.line, o.extra))
+        col.floor('C10-links', 'link obligations', n, 8)
+    guarded(col, 'C10-links', 'links', links)
